@@ -218,7 +218,7 @@ pub fn gen_c05(tier: &str, seed: u64, emit: &mut dyn FnMut(String)) {
 /// C10: repetitions of unchanged tables anywhere, also straddled by an open PES packet
 pub fn gen_c10(tier: &str, seed: u64, emit: &mut dyn FnMut(String)) {
     let mut rng = Rng::new(seed ^ 0xC10);
-    for i in 0..(if tier == "thorough" { 40000 } else { 2500 }) {
+    for i in 0..(if tier == "thorough" { 16000 } else { 2500 }) {
         let np = rng.range(1, 2) as usize;
         let mut w = World::new(&mut rng, np, false);
         // only PES stream types so that elementary PIDs get PES consumers
